@@ -1,6 +1,6 @@
 //! This module implements the normalized `Duration` records.
 
-use core::{num::NonZeroU128, ops::Add};
+use core::{cmp::Ordering, num::NonZeroU128, ops::Add};
 
 use num_traits::{AsPrimitive, Euclid, FromPrimitive};
 
@@ -9,7 +9,7 @@ use crate::{
     iso::{IsoDate, IsoDateTime},
     options::{
         ArithmeticOverflow, Disambiguation, ResolvedRoundingOptions, RoundingIncrement,
-        RoundingMode, Unit,
+        RoundingMode, Unit, UnsignedRoundingMode,
     },
     primitive::FiniteF64,
     provider::TimeZoneProvider,
@@ -593,9 +593,36 @@ impl NormalizedDurationRecord {
         // This division can be implemented as if constructing Normalized Time Duration Records for the denominator
         // and numerator of total and performing one division operation with a floating-point result.
         // 15. Let roundedUnit be ApplyUnsignedRoundingMode(total, r1, r2, unsignedRoundingMode).
-        let rounded_unit =
-            IncrementRounder::from_signed_num(total, options.increment.as_extended_increment())?
-                .round(options.rounding_mode);
+        // NOTE: `total` is a double and cannot decide the rounding direction (a destination one
+        // nanosecond past `start` is lost in it): the decision is made on the exact integers.
+        let numerator = (dest_epoch_ns - start_epoch_ns.0).unsigned_abs();
+        let denominator = (end_epoch_ns.0 - start_epoch_ns.0).unsigned_abs();
+        let unsigned_rounding_mode = options
+            .rounding_mode
+            .get_unsigned_round_mode(sign != Sign::Negative);
+        let rounded_unit = if numerator == 0 {
+            r1
+        } else if numerator >= denominator {
+            r2
+        } else {
+            match unsigned_rounding_mode {
+                UnsignedRoundingMode::Zero => r1,
+                UnsignedRoundingMode::Infinity => r2,
+                _ => match (numerator * 2).cmp(&denominator) {
+                    Ordering::Less => r1,
+                    Ordering::Greater => r2,
+                    Ordering::Equal => match unsigned_rounding_mode {
+                        UnsignedRoundingMode::HalfZero => r1,
+                        UnsignedRoundingMode::HalfInfinity => r2,
+                        // half-even: the cardinality of r1 in increments
+                        _ if (r1.unsigned_abs() / u128::from(options.increment.get())) % 2 == 0 => {
+                            r1
+                        }
+                        _ => r2,
+                    },
+                },
+            }
+        };
 
         // 16. If roundedUnit - total < 0, let roundedSign be -1; else let roundedSign be 1.
         // 19. Return Duration Nudge Result Record { [[Duration]]: resultDuration, [[Total]]: total, [[NudgedEpochNs]]: nudgedEpochNs, [[DidExpandCalendarUnit]]: didExpandCalendarUnit }.
